@@ -294,20 +294,23 @@ def overflow_test(pred):
         return None
     if neg:
         op = {'>': '<=', '<': '>=', '>=': '<', '<=': '>'}[op]
+    inverted = False
+    if op in ('<', '<='):
+        # `len <= maxsize` being False is the overflow: judge the complementary test
+        op = {'<': '>=', '<=': '>'}[op]
+        inverted = True
     # a = len + la ; b = maxsize + lb
     la = offset(a, lambda x: x[0] == 'ev' and x[1] == 'len')
     lb = offset(b, lambda x: x == MAXSIZE)
     lenterm = [t for t in subterms(a) if t[0] == 'ev' and t[1] == 'len'][0]
     if la is None or lb is None:
-        return ('unknown', lenterm, render(pred))
+        return ('unknown', lenterm, render(pred), inverted)
     c = lb - la          # test is: len OP maxsize + c
     if op == '>':
         ok = c <= 0
-    elif op == '>=':
-        ok = c <= 1
     else:
-        ok = False       # a '<' / '<=' test is true for small caches, not for overflowing ones
-    return ('ok' if ok else 'lax', lenterm, 'len(cache) %s maxsize%+d' % (op, c) if c else 'len(cache) %s maxsize' % op)
+        ok = c <= 1
+    return ('ok' if ok else 'lax', lenterm, 'len(cache) %s maxsize%+d' % (op, c) if c else 'len(cache) %s maxsize' % op, inverted)
 
 
 def offset(t, base):
@@ -327,13 +330,23 @@ def offset(t, base):
     return None
 
 
+class OvEvent(object):
+    """a BRANCH event on an overflow test, with its truth normalised to 'the cache overflows'"""
+
+    def __init__(self, e, inverted):
+        self.line = e.line
+        self.kind = e.kind
+        overflow = (e.args[1] == C(True)) != inverted
+        self.args = (e.args[0], C(overflow))
+
+
 def overflow_branches(o):
     """[(index, event, verdict)] for BRANCH events that test len(cache) against maxsize"""
     out = []
     for i, e in ev_of(o, 'BRANCH'):
         t = overflow_test(e.args[0])
         if t is not None:
-            out.append((i, e, t))
+            out.append((i, OvEvent(e, t[3]), t))
     return out
 
 
@@ -750,11 +763,18 @@ def rule_W_WRITERS(ctx, d):
     for k, (v, line) in d.iface.items():
         if v[0] == 'closure':
             allowed[v] = k
+    used_by_wrapper = set()
+    for fn in [d.wrapper_node] + [d.closure_node(v) for v in allowed if d.closure_node(v) is not None]:
+        for n in ast.walk(fn):
+            if isinstance(n, ast.Name) and isinstance(n.ctx, ast.Load):
+                used_by_wrapper.add(n.id)
     for name, v in d.env.items():
         if not (isinstance(v, tuple) and v and v[0] == 'closure'):
             continue
         if v == d.wrapper_val:
             continue
+        if v not in allowed and name in used_by_wrapper:
+            continue    # a local helper of the wrapper / an interface closure: its effects are judged where it is inlined
         node = d.closure_node(v)
         if node is None or isinstance(node, ast.Lambda):
             continue
